@@ -609,6 +609,30 @@ func (t *tr) specCall(c *ast.CallExpr, sc *specCtx) Term {
 			return t.specErr(sc, "boxed: unknown type")
 		}
 		return t.box(a, a.T, T)
+	case "addr": // addr(p.f): interior address of struct-typed field f of the object p points to
+		if !need(1) {
+			return tFalse
+		}
+		se, ok := c.Args[0].(*ast.SelectorExpr)
+		if !ok {
+			return t.specErr(sc, "addr: want addr(p.f)")
+		}
+		base := t.spec(se.X, sc)
+		named, st, isPtr := derefStruct(base.T)
+		if st == nil || !isPtr {
+			return t.specErr(sc, "addr: %s is not a pointer to a struct", base.S)
+		}
+		idx := fieldIndexByName(st, se.Sel.Name)
+		if idx < 0 {
+			return t.specErr(sc, "addr: no field %s", se.Sel.Name)
+		}
+		name := "faddr$" + typeKey(named) + "." + se.Sel.Name
+		t.V.W.declFun(name, []string{SInt}, SInt)
+		t.V.W.declFun(name+"~inv", []string{SInt}, SInt)
+		t.V.W.addAxiom(name, fmt.Sprintf("(forall ((p Int)) (! (and (< (%s p) 0) (= (%s (%s p)) p)) :pattern ((%s p))))", sym(name), sym(name+"~inv"), sym(name), sym(name)))
+		r := app(sym(name), SInt, base)
+		r.T = types.NewPointer(st.Field(idx).Type())
+		return r
 	case "upd": // upd(a, i, v): array a with index i set to v
 		if !need(3) {
 			return tFalse
